@@ -180,6 +180,9 @@ where
 
         let mut randomness = Randomness::<E::ScalarField, P>::empty();
         if let Some(hiding_degree) = hiding_bound {
+            if hiding_degree == 0 {
+                return Err(Error::HidingBoundIsZero);
+            }
             let mut rng = rng.ok_or(Error::MissingRng)?;
             let sample_random_poly_time = start_timer!(|| format!(
                 "Sampling a random polynomial of degree {}",
